@@ -47,6 +47,16 @@ func forEach(n, workers int, deadline time.Time, fn func(worker, i int)) bool {
 	return !cut.Load()
 }
 
+// report forwards the first failure of every key to the runner (one replay file and one re-check per class).
+var reported sync.Map
+
+func report(r *runner.Run, fl *failure, replay any, recheck func() bool) {
+	if _, dup := reported.LoadOrStore(fl.Key, true); dup {
+		return
+	}
+	r.Violation(fl.Key, fl.Msg, replay, recheck)
+}
+
 // tieBook remembers, per selection mode, which end of the id order won a tie.
 type tieBook struct {
 	mu   sync.Mutex
@@ -292,7 +302,7 @@ func outbound(r *runner.Run, deadline time.Time, workers int, ties *tieBook) boo
 					}
 					if fl != nil {
 						sh, clk := sh, clk
-						r.Violation(fl.Key, fl.Msg, replayDoc{Part: "outbound", Spec: &spec, Shape: &sh, Clock: clk.Label}, func() bool {
+						report(r, fl, replayDoc{Part: "outbound", Spec: &spec, Shape: &sh, Clock: clk.Label}, func() bool {
 							f2, err := replayOut(spec, sh, clk)
 							return err == nil && f2 != nil && f2.Key == fl.Key
 						})
@@ -322,8 +332,8 @@ func outbound(r *runner.Run, deadline time.Time, workers int, ties *tieBook) boo
 						first[idx] = int8(pick)
 					case first[idx] != unset && int(first[idx]) != pick:
 						sh, clk := sh, clk
-						r.Violation("out:pick-depends-on-secret_ref-order", fmt.Sprintf("same versions, clock and rule, but listing order %v gives %s and listing order %v gives %s; %s clock=%s",
-							v.Order, pickName(pick), vars[vi-permIdx].Order, pickName(int(first[idx])), spec, clk.Label), replayDoc{Part: "outbound", Spec: &spec, Shape: &sh, Clock: clk.Label}, nil)
+						report(r, &failure{"out:pick-depends-on-secret_ref-order", fmt.Sprintf("same versions, clock and rule, but listing order %v gives %s and listing order %v gives %s; %s clock=%s",
+							v.Order, pickName(pick), vars[vi-permIdx].Order, pickName(int(first[idx])), spec, clk.Label)}, replayDoc{Part: "outbound", Spec: &spec, Shape: &sh, Clock: clk.Label}, nil)
 					}
 					if permIdx == 0 && si == 0 {
 						r.Distinct(fmt.Sprintf("out|%s|%s|%s|u%d|%s", pattern(u.Windows), clk.Label, v.Sel, u.Unload, pickName(pick)))
@@ -389,11 +399,11 @@ func outboundFixed(r *runner.Run) bool {
 					unix := unixFloor(clk.At.UnixNano())
 					switch {
 					case len(got) != 1:
-						r.Violation("out:direct-secret:not-sent-once", fmt.Sprintf("%d requests for a target with `sign hmac raw:...` at %s", len(got), clk.Label), doc(clk), nil)
+						report(r, &failure{"out:direct-secret:not-sent-once", fmt.Sprintf("%d requests for a target with `sign hmac raw:...` at %s", len(got), clk.Label)}, doc(clk), nil)
 					case got[0].Header.Get(names.Ts) != fmt.Sprint(unix):
-						r.Violation("out:direct-secret:timestamp-header", fmt.Sprintf("timestamp header %q, want %d", got[0].Header.Get(names.Ts), unix), doc(clk), nil)
+						report(r, &failure{"out:direct-secret:timestamp-header", fmt.Sprintf("timestamp header %q, want %d", got[0].Header.Get(names.Ts), unix)}, doc(clk), nil)
 					case got[0].Header.Get(names.Sig) != refOutboundSig([]byte(directSecret), got[0].Method, got[0].path(), unix, got[0].Body):
-						r.Violation("out:direct-secret:signature", fmt.Sprintf("signature header %q is not the reference HMAC over (%s,%s,%d,body)", got[0].Header.Get(names.Sig), got[0].Method, got[0].path(), unix), doc(clk), nil)
+						report(r, &failure{"out:direct-secret:signature", fmt.Sprintf("signature header %q is not the reference HMAC over (%s,%s,%d,body)", got[0].Header.Get(names.Sig), got[0].Method, got[0].path(), unix)}, doc(clk), nil)
 					default:
 						r.Add("out_sent", 1)
 					}
@@ -403,7 +413,7 @@ func outboundFixed(r *runner.Run) bool {
 						return true
 					}
 					if len(got) != 0 {
-						r.Violation("out:unloadable-direct-secret:sent", fmt.Sprintf("a request was sent for a target whose `sign hmac env:%s` cannot be loaded (clock %s)", neverSetEnv, clk.Label), doc(clk), nil)
+						report(r, &failure{"out:unloadable-direct-secret:sent", fmt.Sprintf("a request was sent for a target whose `sign hmac env:%s` cannot be loaded (clock %s)", neverSetEnv, clk.Label)}, doc(clk), nil)
 					} else {
 						r.Add("out_not_sent", 1)
 						r.Add("out_not_sent_unloadable_secret", 1)
@@ -458,7 +468,7 @@ func inbound(t *testing.T, r *runner.Run, deadline time.Time, workers int) bool 
 			}
 			if fl := inFailure(set, x, insts); fl != nil {
 				c := x.Case
-				r.Violation(fl.Key, fl.Msg, replayDoc{Part: "inbound", Set: set, InCase: &c}, func() bool {
+				report(r, fl, replayDoc{Part: "inbound", Set: set, InCase: &c}, func() bool {
 					f2, err := replayIn(t, set, c)
 					return err == nil && f2 != nil && f2.Key == fl.Key
 				})
@@ -515,7 +525,7 @@ func endToEnd(t *testing.T, r *runner.Run, deadline time.Time, workers int, ties
 			pick, tie, fl := judgeE2E(spec, o)
 			if fl != nil {
 				o := o
-				r.Violation(fl.Key, fl.Msg, replayDoc{Part: "e2e", Spec: &spec, Clock: o.Clock.Label, Shape: &shape{Route: o.Route}}, func() bool {
+				report(r, fl, replayDoc{Part: "e2e", Spec: &spec, Clock: o.Clock.Label, Shape: &shape{Route: o.Route}}, func() bool {
 					f2, err := replayE2E(t, spec, o.Clock, o.Route)
 					return err == nil && f2 != nil && f2.Key == fl.Key
 				})
